@@ -51,6 +51,44 @@ theorem C11_chunks_recorded (P : HashPrims) (L : Limits) (allow : Defrag → Nat
   obtain ⟨e, he, heq⟩ := List.mem_map.mp this
   exact ⟨e, he, heq⟩
 
+/-! ### When may a found run be stored again?  (the second sentence of C11 and fragmentation prevention)
+
+`FileDeduper::process_chunks` asks `DefragPrevention::allow_dedup_on_next_range(n)` before it accepts a dedup run of `n`
+chunks that does not continue the current segment; a rejected run is stored again as new data.  These three facts delimit the
+recorded finding `repeat-upload-bytes-withheld-by-fragmentation-prevention`: nothing is ever rejected before 128 ranges have
+been recorded for the file; a run of at least 8 chunks is never rejected; and a short run after 128 one-chunk ranges IS
+rejected (so "re-uploading … transfers no new chunk bytes" fails of the code for heavily fragmented files). -/
+
+/-- with fewer than 128 recorded ranges every run is accepted (and the estimator is left as it is) -/
+theorem C11_defrag_warmup (d : Defrag) (n : Nat) (h : d.window.length < nranges) :
+    (d.allowNext n).allow = true ∧ (d.allowNext n).st = d := by
+  simp [Defrag.allowNext, h]
+
+/-- a run of at least `MIN_N_CHUNKS_PER_RANGE` = 8 chunks is accepted in every state of the estimator -/
+theorem C11_defrag_long_run_accepted (d : Defrag) (n : Nat) (h : Gen.minChunksPerRange ≤ n) : (d.allowNext n).allow = true := by
+  have h8 : 8 ≤ n := h
+  simp only [Defrag.allowNext]
+  by_cases hw : d.window.length < nranges
+  · simp [hw]
+  · by_cases hl : d.low = true
+    · by_cases ht : d.total < Gen.minChunksPerRangeLowX2 * nranges / 2
+      · have hn : ¬ (n * nranges < d.total) := by
+          simp only [nranges, Gen.nrangesInFragmentationEstimator, Gen.minChunksPerRangeLowX2] at *; omega
+        simp [hw, hl, ht, hn]
+      · simp [hw, hl, ht]
+    · by_cases ht : d.total < Gen.minChunksPerRange * nranges
+      · have hn : ¬ (n * nranges < d.total) := by
+          simp only [nranges, Gen.nrangesInFragmentationEstimator, Gen.minChunksPerRange] at *; omega
+        simp [hw, hl, ht, hn]
+      · simp [hw, hl, ht]
+
+/-- the witness of the finding: after 128 ranges of one chunk each, a found run of 1..0 chunks — here one chunk, not longer
+    than the average — is rejected, in both threshold states -/
+theorem C11_defrag_short_run_rejected :
+    ((⟨List.replicate 128 1, 128, true⟩ : Defrag).allowNext 0).allow = false ∧
+    ((⟨List.replicate 128 2, 256, false⟩ : Defrag).allowNext 1).allow = false := by
+  simp [Defrag.allowNext, nranges, Gen.nrangesInFragmentationEstimator, Gen.minChunksPerRange, Gen.minChunksPerRangeLowX2]
+
 /-! ### non-vacuity: a history that puts two xorbs (one mid-file, one from the aggregate) -/
 
 section Example
